@@ -4,9 +4,9 @@ ENV = os.path.join(os.path.dirname(os.path.dirname(os.path.abspath(__file__))), 
 CG = "bindgen/codegen/mod.rs"
 
 HEAD = "methods.extend(Some(quote! { #[inline] #access_spec "
-T1 = (HEAD + "fn #getter_name(&self) -> #bitfield_ty { self", "}));")
+T1 = (HEAD + "fn #getter_name(&self) -> #bitfield_ty { unsafe { self", "}));")
 T2 = (HEAD + "unsafe fn #raw_getter_name(this: *const Self) -> #bitfield_ty { unsafe { <#unit_field_ty>::raw_get(", "}));")
-T3 = (HEAD + "fn #getter_name(&self) -> #bitfield_ty { unsafe {", "}));")
+T3 = (HEAD + "fn #getter_name(&self) -> #bitfield_ty { unsafe { ::#prefix::mem::transmute(", "}));")
 T4 = (HEAD + "unsafe fn #raw_getter_name(this: *const Self) -> #bitfield_ty { unsafe { ::#prefix::mem::transmute(", "}));")
 
 TARGET = "Some((*unit_field_ident, offset as int, width as int))"
@@ -46,3 +46,13 @@ UNIT = {
          ]},
     ],
 }
+
+# Known finding F18 (witness): C03 demands that a getter returns the value C reads, "zero- or sign-extended according to
+# the declared type".  No accessor template sign-extends; this contract is expected to FAIL on the unchanged tree.
+import copy as _copy
+_w = _copy.deepcopy(next(i for i in UNIT["items"] if i.get("name") == "emit_accessors"))
+_w["rename"] = "emit_accessors__signed"
+_w["rename_tag"] = "@signed_getter_F18"
+_w["witness"] = True
+_w["ensures"] = ["ty_is_signed(*bitfield_int_ty) ==> getter_sign_extends(final(methods)@[old(methods)@.len() as int])"]
+UNIT["items"].append(_w)
